@@ -24,8 +24,9 @@ In addition every run records the history of plan_state operations the resolver 
 the projected planner state after each; Resolver_PlanTrace (INSTANCE PlanState, C17's model)
 judges every step (clauses PS_<clause of PlanState_Trace>).
 
-Carve-outs (not judged, counted): dependency items mixing blockers into any-of groups, USE
-conditionals, virtual/ category, built source packages; for the policy clauses see C16.
+Carve-outs (outside the generated domain): dependency items mixing blockers into any-of groups, USE
+conditionals, built source packages, packages carrying a blocker that matches themselves (C17's
+carve-out); for the policy clauses see C16.
 """
 import os
 import traceback
@@ -400,6 +401,13 @@ def _atom(key, op="any", ver=(), slot="*", blk="none"):
     return dict(key=key, op=op, ver=list(ver) if op != "any" else [], slot=slot, blk=blk)
 
 
+def _matches(a, p):
+    """generator-side only (keeps worlds inside the domain; judging is done in TLA+)"""
+    pv, av = list(p["ver"]), list(a["ver"])
+    ok = {"any": True, "=": pv == av, ">=": pv >= av, "<=": pv <= av, ">": pv > av, "<": pv < av}[a["op"]]
+    return a["key"] == p["key"] and ok and a["slot"] in ("*", p["slot"])
+
+
 # version pools: plain, digit-count changes (9 -> 10), later components (1.9 -> 1.10), mixed lengths
 VERSION_POOLS = (
     ([1], [2], [3]),
@@ -544,7 +552,8 @@ def gen_world(r, style):
                     items.append([[ratom(o)] for _ in range(r.randint(3, 5))])  # a long any-of group
                 else:
                     items.append([[ratom(o, "none"), ratom(o)], [ratom(o)]])
-            p[c] = items
+            # domain: no package carries a blocker that matches itself
+            p[c] = [i for i in items if not (i[0][0]["blk"] != "none" and _matches(i[0][0], p))]
     targets = []
     for _ in range(r.choice([1, 1, 2, 3])):
         if style == "robust":
